@@ -32,6 +32,7 @@ impl<F> ExecutionContext<F> {
     /// the sibling data attached to this op, if any (private data present AND of the permutation's sibling type)
     pub open spec fn sibling(&self) -> Option<Seq<F>> { match self.private_data { Some(d) => (match d.perm { Some(p) => Some(p.sibling@), None => None }), None => None } }
 }
+#[derive(Clone, Copy)]
 pub struct PermCfg { pub wext: usize, pub dd: usize, pub a4: bool }
 impl PermCfg {
     pub fn width_ext(&self) -> (r: usize) ensures r == self.wext { self.wext }
@@ -195,8 +196,23 @@ def build():
     u.text('verus! {')
     u.emit(lc)
     u.text('}')
+    # ---------------------------------------------------------------- new / Clone::clone: an executor and its copy (Op::clone, Circuit::clone, boxed()) are the same row description (C06: the length tag absorb_len included)
+    def exnorm(f):
+        f.rewrite_re('R12', r'\bSelf \{', 'PoseidonPermExecutor {', min_count=0)
+        f.rewrite_re('R12', r'\bSelf::new\(', 'PoseidonPermExecutor::new(', min_count=0)
+        f.rewrite_re('R11', r'_variant: PhantomData,?', '', min_count=0)
+        f.rewrite_re('R11', r'self\.op_type\.clone\(\)', 'self.op_type', min_count=0)
+        f.sig_rewrite('R12', '-> Self', '-> PoseidonPermExecutor') if '-> Self' in f.sig else None
+        f.sig_rewrite('R11', 'V::Config', 'PermCfg') if 'V::Config' in f.sig else None
+        return f
+    nw = exnorm(u.extract(E, r'impl<V: PoseidonVariant> PoseidonPermExecutor<V>', 'new', 'PoseidonPermExecutor::new'))
+    nw.ensures('the_row_description_given', 'ret.new_start == new_start && ret.merkle_path == merkle_path && ret.absorb_len == absorb_len && ret.config == config')
+    cl = exnorm(u.extract(E, r'impl<V: PoseidonVariant> Clone for PoseidonPermExecutor<V>', 'clone', 'PoseidonPermExecutor::clone'))
+    cl.ensures('a_copy_describes_the_same_row_length_tag_included', 'ret.new_start == self.new_start && ret.merkle_path == self.merkle_path && ret.absorb_len == self.absorb_len && ret.config == self.config')
     u.text('verus! {\nimpl PoseidonPermExecutor {')
     u.emit(r)
+    u.emit(nw)
+    u.emit(cl)
     u.emit(ph)
     u.emit(pf)
     u.emit(xb)
